@@ -130,6 +130,93 @@ def w1(led, rid, ctx):
     led.floor(rid, "u64 differences in the MaxSAT code", n, 7)
 
 
+# bound forms / steps argued correct by hand: key -> reason.  Empty on the pinned tree.
+W_JUSTIFIED = {}
+
+
+def w10(led, rid, ctx):
+    """LSU-STEP: the linear search asks for a solution that is better by exactly one unit:
+    constrain_at_most_k(best − 1).  Any larger step assumes something about which objective values
+    exist (weights can be traded against each other, so not even the smallest weight is a lower
+    bound on an improvement)."""
+    p = ctx.bin
+    ls = None
+    for f in p.fns.values():
+        if f.name == "solve" and (f.self_adt or "").endswith("LinearSearch"):
+            ls = f
+    if ls is None:
+        raise AnchorMissing("LinearSearch::solve")
+    R = resolver(ls)
+    cs = ls.calls_named("constrain_at_most_k")
+    if not cs:
+        raise AnchorMissing("constrain_at_most_k in LinearSearch::solve")
+    for c in cs:
+        e = peel(R.operand(c.args[1]), calls=None)
+        ok = e.k == "binop" and e.a.startswith("Sub") and peel(e.c, calls=None).k == "const" and peel(e.c, calls=None).a == 1 \
+            and any(x.k == "call" and x.a.name == "evaluate_assignment" for x in e.b.walk())
+        if not ok and "LinearSearch::solve" in W_JUSTIFIED:
+            led.ok(rid, "step-is-one", c.span, "JUSTIFIED: " + W_JUSTIFIED["LinearSearch::solve"])
+            continue
+        led.check(ok, rid, "step-is-one", c.span, "constrain_at_most_k(evaluate_assignment(best) − 1)",
+                  "the linear search tightens the bound to %s rather than to the incumbent's value minus one: an "
+                  "improving solution whose value lies in the gap is never looked for and the incumbent is reported "
+                  "as the optimum" % show(e)[:100])
+
+
+def w11(led, rid, ctx):
+    """WHO-MAY-DROP-SIGN: the sign of a DIMACS code is what distinguishes a literal from its negation;
+    only the translation of a code to a solver literal (mapped_clause) looks at the absolute value.
+    A test on clauses that is made on variables (duplicates, tautologies, canonical forms) confuses
+    `x ∨ x` with `x ∨ ¬x`."""
+    p = ctx.bin
+    n = 0
+    for f in p.fns.values():
+        if "/parsers/" not in f.file and "/maxsat/" not in f.file:
+            continue
+        for c in f.calls:
+            if c.name in ("unsigned_abs", "abs", "wrapping_abs", "checked_abs") and "NonZero<i32>" in ((c.term.get("arg_tys") or [""])[0] + (c.self_ty or "")) \
+                    or (c.name in ("unsigned_abs", "abs") and "i32" in (c.self_ty or "") and "/parsers/dimacs" in f.file):
+                n += 1
+                root = (f.parent or f.defn)
+                ok = root.endswith("::mapped_clause") or "::mapped_clause::" in f.defn
+                led.check(ok, rid, "abs@%s" % root.rsplit("::", 1)[-1], c.span, "inside mapped_clause",
+                          "%s takes the absolute value of a DIMACS code outside the code→literal translation: what it "
+                          "computes is about variables, not literals (a clause that repeats a literal looks like a "
+                          "tautology, `x` looks like a duplicate of `¬x`)" % root.rsplit("::", 1)[-1])
+    led.floor(rid, "absolute values of DIMACS codes", n, 2)
+
+
+def w12(led, rid, ctx):
+    """ENCODER-BOUND: every right-hand side the pseudo-Boolean encoder hands on (create_encoder,
+    strengthen_at_most_k) is the caller's k, or k minus the constant term — never rescaled: the
+    encoder objects are built in three different state transitions and a scale that is applied in
+    one of them only makes bound and weights disagree"""
+    p = ctx.bin
+    n = 0
+    for f in p.fns.values():
+        if "pseudo_boolean_constraint_encoder" not in f.file or "/tests" in f.file:
+            continue
+        R = None
+        for c in f.calls:
+            if c.name not in ("strengthen_at_most_k", "create_encoder") or len(c.args) < 2:
+                continue
+            if f.name == "create_encoder":
+                continue
+            R = R or resolver(f)
+            e = peel(R.operand(c.args[1]), calls=None)
+            n += 1
+            ok = e.k == "arg" or (e.k == "binop" and e.a.startswith("Sub") and peel(e.b, calls=None).k == "arg"
+                                  and "constant_term" in peel(e.c, calls=None).fields())
+            key = "%s:%s" % (f.name, c.name)
+            if not ok and key in W_JUSTIFIED:
+                led.ok(rid, key, c.span, "JUSTIFIED: " + W_JUSTIFIED[key])
+                continue
+            led.check(ok, rid, key, c.span, show(e)[:60],
+                      "%s hands the encoder the bound %s: the right-hand side is rescaled on this transition, "
+                      "while the other transitions build or strengthen the encoder from unscaled values" % (f.name, show(e)[:80]))
+    led.floor(rid, "bounds handed to the encoders", n, 3)
+
+
 def w2(led, rid, ctx):
     p = ctx.bin
     ls = None
@@ -705,4 +792,9 @@ def run(ctx, led):
     _kernel.run_bundle(led, ctx, "W")
     from . import kernel as _kernel4
     _kernel4.run_lifecycle(led, ctx, "W")
+    run_rule(led, "W10", "LSU-STEP: the linear search tightens the bound by exactly one", w10, ctx)
+    run_rule(led, "W11", "WHO-MAY-DROP-SIGN: only the code→literal translation takes the absolute value of a DIMACS code", w11, ctx)
+    run_rule(led, "W12", "ENCODER-BOUND: right-hand sides handed to the encoders are k or k − constant term on every state transition", w12, ctx)
+    from . import C14 as _C14
+    run_rule(led, "W13", "every hard clause reaches the solver; status lines only inside the arms of the solve result (shared with C14-G8)", _C14.g8, ctx)
     run_rule(led, "W9", "the time limit is interpreted in milliseconds", w9, ctx)
